@@ -429,6 +429,8 @@ def run(chk):
     from . import c16
     chk.guard(c16.rule_r3, chk, rid="C05-R8")
     chk.guard(c02.rule_r6, chk, rid="C05-R9", sites=(1, 2, 3, 4))
+    from .. import unused as _unused
+    chk.guard(_unused.apply, chk, "C05-R91")
     from .. import args as _args
     chk.guard(_args.apply, chk, "C05-R90", {'incidences', 'simultaneous', 'steadiers'}, 1)
     chk.assumptions = [
